@@ -11,6 +11,8 @@ pub(crate) trait BindScope: fmt::Debug + NotObserver {
     fn is_necessary(&self) -> bool;
     fn height(&self) -> i32;
     fn add_node(&self, node: WeakNode);
+    #[cfg(cormacrelf_incremental_rs_verif)]
+    fn verif_lhs_change_rank(&self) -> Option<usize>;
 }
 
 #[derive(Clone)]
